@@ -2,7 +2,6 @@ package rules
 
 import (
 	"fmt"
-	"go/token"
 	"go/types"
 
 	"golang.org/x/tools/go/ssa"
@@ -21,47 +20,22 @@ func c16RoutingPayload(r *core.Run) {
 		return
 	}
 	f := fn.SSA
-	pt := passThrough(r.P)
 	ok := false
-	for _, b := range f.Blocks {
-		if len(b.Instrs) == 0 {
-			continue
-		}
-		ifi, isIf := b.Instrs[len(b.Instrs)-1].(*ssa.If)
-		if !isIf {
-			continue
-		}
-		bin, isBin := ifi.Cond.(*ssa.BinOp)
-		if !isBin {
-			continue
+	core.Instrs(f, func(in ssa.Instruction) {
+		bin, isBin := in.(*ssa.BinOp)
+		if !isBin || !core.IsCompare(bin.Op) {
+			return
 		}
 		l := lenArg(bin.X)
 		k, isK := bin.Y.(*ssa.Const)
 		if l == nil || !isK || k.Value == nil || k.Int64() != 0 || core.LastField(l) != "Owners" {
-			continue
+			return
 		}
-		// edge on which len == 0
-		idx := -1
-		switch bin.Op {
-		case token.EQL, token.LEQ:
-			idx = 0
-		case token.NEQ, token.GTR:
-			idx = 1
-		}
-		if idx < 0 {
-			continue
-		}
-		rets := core.ReturnsFrom(b.Succs[idx], b)
-		good := len(rets) > 0 && !reachesBlock(b.Succs[idx], b)
-		for _, ret := range rets {
-			if core.SuccessCapable(ret, pt) {
-				good = false
-			}
-		}
-		if good {
+		// the comparison's outcome when the list is empty (len == 0)
+		if valueOnlyFails(r.P, bin, core.CmpHolds(bin.Op, 0)) {
 			ok = true
 		}
-	}
+	})
 	r.Check(ok, "routing-payload-validated", name+" routes have an owner", site(r, f.Pos()),
 		"a pushed table with an owner-less route is rejected with an error",
 		"a pushed routing table whose route has an empty Owners list passes validation: applying it makes Partition.Owner() panic inside the handler goroutine (redcon has no recover), i.e. one crafted internal.node.updaterouting request terminates the member")
